@@ -150,6 +150,7 @@ def gen_case(rng):
         "first": rng.randrange(n_threads),
         "policy": tprog.gen_policy(rng, n_threads, 300 * sum(len(t) for t in threads)),
         "policy_seed": rng.getrandbits(48),
+        "opcodes": tprog.gen_granularity(rng),
     }
     # probes: aimed at the initial and at the final configuration
     final = build(_final_model(case))
